@@ -67,5 +67,27 @@ fn main() {
         });
         if r.is_err() { first(format!("ChangeRequest::flags() panics on the decoded word {:#010x}", word)); bad += 1; break; }
     }
+    // comparisons between the text attributes and plain strings never panic, whatever the attribute holds: realms whose text the
+    // OpaqueString profile rejects (empty after trimming; a TAB, which the quoted-string grammar allows) come from the public
+    // constructor and from the decoder
+    {
+        use stun_rs::attributes::stun::{Realm, UserName};
+        let mut realms: Vec<Realm> = Vec::new();
+        for t in ["\"\"", "\" \"", " \"\"", "example.org", "caf\u{e9}"] { if let Ok(r) = Realm::new(t) { realms.push(r); } }
+        let mut m = vec![0x01u8, 0x11, 0x00, 0x08, 0x21, 0x12, 0xA4, 0x42]; m.extend_from_slice(&[5u8; 12]);
+        m.extend_from_slice(&[0x00, 0x14, 0x00, 0x03, b'a', b'\t', b'b', 0x00]);
+        if let Ok((msg, _)) = MessageDecoderBuilder::default().build().decode(&m) { for a in msg.attributes() { if a.is_realm() { realms.push(a.expect_realm().clone()); } } }
+        let names: Vec<UserName> = ["u", "user name", "caf\u{e9}"].iter().filter_map(|t| UserName::new(*t).ok()).collect();
+        for other in ["example.org", "", "a\tb", "x", "cafe\u{301}", " "] {
+            let o = other.to_string();
+            let r = std::panic::catch_unwind(|| {
+                let mut k = 0usize;
+                for x in &realms { if *x == other { k += 1; } if other == *x { k += 1; } if *x == o { k += 1; } if o == *x { k += 1; } if *x == *other { k += 1; } }
+                for x in &names { if *x == other { k += 1; } if other == *x { k += 1; } if *x == o { k += 1; } if o == *x { k += 1; } }
+                k
+            });
+            if r.is_err() { first(format!("comparing a Realm / UserName with the string {:?} panics", other)); bad += 1; break; }
+        }
+    }
     if bad == 0 { println!("ok: small-domain conversions and clone sequences"); } else { std::process::exit(1); }
 }
